@@ -13,6 +13,7 @@ import TnVerif.Model.Dual
 import TnVerif.Model.Ortho
 import TnVerif.Model.Round
 import TnVerif.Model.Maxvol
+import TnVerif.Model.TTMatrix
 /-
   Line-protocol driver (DESIGN §2.6).  One request per line on stdin, one answer per line on
   stdout.  Tokens are separated by blanks; numbers are integers or `p/q`.
@@ -343,6 +344,14 @@ def run (cmd : String) : PM String := do
         else break
       let fin := (List.range r).map s.idx
       return "ok " ++ showNats fin ++ " swaps " ++ showNats (swaps.toList.flatMap fun p => [p.1, p.2])
+  | "kron_ok" => do
+      let ranks ← pNatList; let ind ← pNatList; let outd ← pNatList
+      return "ok B " ++ (if kronOK ranks ind outd then "1" else "0")
+  | "pair_split" => do
+      let is ← pNatList; let js ← pNatList; let os ← pNatList
+      let p := pairIdx is js os
+      let (a, b) := splitIdx p os
+      return "ok " ++ showNats p ++ " | " ++ showNats a ++ " | " ++ showNats b
   | _ => throw s!"unknown command {cmd}"
 
 def handle (line : String) : String :=
